@@ -1028,6 +1028,25 @@ def gen_meta(repo):
     m = need(meta, r'pub const ZERO: BlockSize = BlockSize\(0\); const MAX: u32 = \(1 << (\d+)\) - 1;', 'BlockSize::MAX')
     out.append(f'/-- `BlockSize::MAX` -/\ndef blockSizeMax : Nat := 2 ^ {m.group(1)} - 1\n')
     need(meta, r'const SIZE: BlockSize = BlockSize\(\(1 \+ 7 \+ 24\) / 8\);', 'BlockHeader::SIZE')
+    # the bounds that `update_file`'s padding arithmetic goes through (`grow_padding`: `more_bytes.try_into()` then `checked_add`)
+    def bound(e, what):
+        e = e.strip()
+        if e == 'Self::MAX':
+            return 'blockSizeMax'
+        mm = re.fullmatch(r'\(1 << (\d+)\) - 1', e)
+        if mm:
+            return f'2 ^ {mm.group(1)} - 1'
+        mm = re.fullmatch(r'1 << (\d+)', e)
+        if mm:
+            return f'2 ^ {mm.group(1)}'
+        if re.fullmatch(r'\d+', e):
+            return e
+        raise ExtractError(f'{what}: bound `{e}` is not one of Self::MAX, (1 << N) - 1, 1 << N, N')
+    m = need(meta, r'pub fn checked_add\(self, rhs: Self\) -> Option<Self> \{ self\.0 \.checked_add\(rhs\.0\) \.filter\(\|s\| \*s <= (.+?)\) \.map\(Self\) \}', 'BlockSize::checked_add')
+    out.append(f'/-- `BlockSize::checked_add`: the largest sum that is `Some` -/\ndef blockSizeAddBound : Nat := {bound(m.group(1), "BlockSize::checked_add")}\n')
+    need(meta, r'pub fn checked_sub\(self, rhs: Self\) -> Option<Self> \{ self\.0\.checked_sub\(rhs\.0\)\.map\(Self\) \}', 'BlockSize::checked_sub')
+    m = need(meta, r'impl TryFrom<u64> for BlockSize \{ type Error = BlockSizeOverflow; fn try_from\(u: u64\) -> Result<Self, Self::Error> \{ u32::try_from\(u\) \.map_err\(\|_\| BlockSizeOverflow\) \.and_then\(\|s\| \(s <= (.+?)\)\.then_some\(Self\(s\)\)\.ok_or\(BlockSizeOverflow\)\) \}', 'TryFrom<u64> for BlockSize')
+    out.append(f'/-- `TryFrom<u64> for BlockSize`: the largest value that converts -/\ndef blockSizeFromU64Bound : Nat := {bound(m.group(1), "TryFrom<u64> for BlockSize")}\n')
     m = need(meta, r'pub const MAX_POINTS: usize = \(1 << (\d+)\) / \(\(64 \+ 64 \+ 16\) / 8\);', 'SeekTable::MAX_POINTS')
     out.append(f'def seekTableMaxPoints : Nat := 2 ^ {m.group(1)} / 18\n')
     need(meta, r'match \(size\.get\(\) / 18, size\.get\(\) % 18\) \{ \(p, 0\) =>', 'SeekTable::from_reader size rule')
